@@ -78,7 +78,8 @@ def unit(draw, allow_empty=True, colon=True):
         u = draw(st.sampled_from(["M", "FT", "US/M", "K/M3", "OHMM", "G/CM3", "deg", "mm", "V/V", "0.1IN", "1/s",
                                   "m3/m3", "API", "degC", "%"]))
     elif kind == 6 and colon:
-        u = draw(st.sampled_from(["hh:mm", "h:m", "a:b", "HH:MM", "m.s", "kg.m/s", "a.b.c", "x:y.z", "hh:mm:ss", "a:b:c", "d:h:m"]))
+        u = draw(st.sampled_from(["hh:mm", "h:m", "a:b", "HH:MM", "m.s", "kg.m/s", "a.b.c", "x:y.z", "hh:mm:ss", "a:b:c", "d:h:m",
+                                  "[0,1)", "(0,100]", "(m]", "[deg)", "m(RT)", "(a)b", "[x]y", "a[1]"]))
     else:
         u = draw(st.text(UNIT_CHARS + ".", min_size=1, max_size=8))
     if not _ok_unit(u):
@@ -101,7 +102,7 @@ NUMERIC_TEXTS = st.sampled_from(
 TEXTY = st.sampled_from(
     ["", "ANY OIL COMPANY LTD.", "25-DEC-1988", "100091604920W300", "12-34-12-34W5M", "A9-16-49-20W3M", "nan", "inf",
      "N/A", "0x10", "1 000", "(RT)", "[x]", "\"quoted\"", "it's", "a.b", "~tilde", "#hash", "x . y", "EDAM", "NaN",
-     "1-2", "3 m", "- 5", "1.2.3"])
+     "1-2", "3 m", "- 5", "1.2.3", "Sect 1,2 x", "9,625 / 7,0 liner", "1,2,3", "x1,5", "1,5x", "1,5 2,5"])
 
 
 @st.composite
